@@ -76,6 +76,7 @@ where
     /// (that node will adopt the removed node index). Edge indices are
     /// invalidated as they would be following the removal of each edge
     /// with an endpoint in `a`.
+    /*+*/#[verifier::spinoff_prover]/*-*/
     pub fn remove_node(&mut self, a: NodeIndex<Ix>) -> (r: Option<N>)
         /*+*/requires old(self).wf()
         ensures final(self).wf(),
